@@ -3,6 +3,7 @@ mod engine;
 mod lunmodel;
 mod model;
 mod props;
+mod terms;
 
 use engine::*;
 
